@@ -33,6 +33,7 @@ import (
 	"strconv"
 	"strings"
 	"sync"
+	"sync/atomic"
 	"time"
 )
 
@@ -56,6 +57,10 @@ type c10World struct {
 
 	cmu   sync.Mutex
 	conns map[net.Conn]struct{}
+
+	// h2: the https servers of the direct world offer HTTP/2 (ALPN "h2") during the current case (client configurations
+	// "http.version=HTTP/2" and "server-offers-h2"); otherwise they offer http/1.1 only
+	h2 atomic.Bool
 }
 
 // Connections are kept alive during a case (a response with "Connection: close" makes net/http hand the response to
@@ -89,6 +94,7 @@ var (
 	c10TLSOnce sync.Once
 	c10TLSCfg  *tls.Config
 	c10TLSErr  error
+	c10CertDER []byte // the servers' (self-signed) certificate: also written out as the http.sslcainfo file
 )
 
 func c10ServerTLS() (*tls.Config, error) {
@@ -109,7 +115,9 @@ func c10ServerTLS() (*tls.Config, error) {
 			c10TLSErr = err
 			return
 		}
-		c10TLSCfg = &tls.Config{Certificates: []tls.Certificate{{Certificate: [][]byte{der}, PrivateKey: key}}, NextProtos: []string{"http/1.1"}}
+		c10CertDER = der
+		// a client certificate is asked for but neither required nor verified: the servers only record whether one was presented
+		c10TLSCfg = &tls.Config{Certificates: []tls.Certificate{{Certificate: [][]byte{der}, PrivateKey: key}}, NextProtos: []string{"http/1.1"}, ClientAuth: tls.RequestClientCert}
 	})
 	return c10TLSCfg, c10TLSErr
 }
@@ -138,6 +146,15 @@ func c10NewDirectWorld() (*c10World, error) {
 		return nil, err
 	}
 	w := &c10World{kind: "direct"}
+	h2cfg := cfg.Clone()
+	h2cfg.NextProtos = []string{"h2", "http/1.1"}
+	cfg = cfg.Clone()
+	cfg.GetConfigForClient = func(*tls.ClientHelloInfo) (*tls.Config, error) {
+		if w.h2.Load() {
+			return h2cfg, nil
+		}
+		return nil, nil
+	}
 	var lA, lC net.Listener
 	for try := 0; ; try++ {
 		lA, err = net.Listen("tcp4", "127.0.0.1:0")
@@ -172,7 +189,7 @@ func c10NewDirectWorld() (*c10World, error) {
 		idx := i
 		l := ln
 		if w.hosts[i].Scheme == "https" {
-			l = tls.NewListener(ln, cfg)
+			l = tls.NewListener(c10SniffListener{ln}, cfg)
 		}
 		w.serveOn(l, http.HandlerFunc(func(rw http.ResponseWriter, r *http.Request) {
 			body, err := io.ReadAll(r.Body)
@@ -242,6 +259,8 @@ func c10NewProxyWorld() (*c10World, error) {
 				if host == "" {
 					host = r.Host
 				}
+				tcs := tc.ConnectionState()
+				req.TLS = &tcs
 				rs := w.respond(w.hostIndex("https", host), "https", host, req, len(body))
 				if rs.writeRaw(tc) != nil {
 					return
@@ -367,6 +386,10 @@ type c10Obs struct {
 	Resp    int      `json:"response"`
 	Loc     string   `json:"location,omitempty"`
 	BodyLen int      `json:"body_len,omitempty"`
+	Proto   string   `json:"proto,omitempty"`       // set when not HTTP/1.1
+	Cookie  bool     `json:"cookie,omitempty"`      // a Cookie header (from the configured cookie file) arrived
+	CliCert bool     `json:"client_cert,omitempty"` // the client presented a TLS client certificate
+	Extra   bool     `json:"extra_header,omitempty"`
 }
 
 type c10CaseState struct {
@@ -390,6 +413,7 @@ func (w *c10World) begin(sc *c10Script) *c10CaseState {
 	for h, p := range sc.Pol {
 		st.rejLeft[h] = p.Rejects
 	}
+	w.h2.Store(c10Cfgs[sc.Cfg].h2)
 	w.mu.Lock()
 	w.cs = st
 	w.mu.Unlock()
@@ -416,12 +440,69 @@ func (w *c10World) respond(host int, scheme, hostHdr string, r *http.Request, bo
 	defer w.mu.Unlock()
 	st := w.cs
 	if st == nil {
-		return c10Resp{status: 503, body: "no case"}
+		return c10JSONErr(503, "c10 no case")
 	}
 	return st.respond(host, scheme, hostHdr, r, bodyLen)
 }
 
 const c10JSON = "application/vnd.git-lfs+json"
+
+// Error answers are LFS JSON documents: git-lfs reads and closes such a body itself.  (An error response with any other
+// content type is handed to the caller with its body unread; the callers inside git-lfs drop it on the error path, which
+// pins the connection and its two transport goroutines for the life of the process: 7 500 descriptors after 85 000 cases.)
+func c10JSONErr(status int, msg string) c10Resp {
+	return c10Resp{status: status, hdr: [][2]string{{"Content-Type", c10JSON}}, body: `{"message":"` + msg + `"}`}
+}
+
+// c10SniffListener sits under the TLS listeners.  A client that speaks plain HTTP to an https port (an http:// URL that
+// names an https server's port, e.g. a scheme-relative Location followed from a plain-http host) gets Go's canned
+// "HTTP/1.0 400 Bad Request" with a text body of unknown length; for the reason above that answer is replaced by an
+// equivalent 400 LFS JSON document.  As before, such a request never reaches the scripted handler and is not recorded.
+type c10SniffListener struct{ net.Listener }
+
+func (l c10SniffListener) Accept() (net.Conn, error) {
+	c, err := l.Listener.Accept()
+	if err != nil {
+		return nil, err
+	}
+	return &c10SniffConn{Conn: c}, nil
+}
+
+type c10SniffConn struct {
+	net.Conn
+	sniffed bool
+	first   []byte
+}
+
+const c10PlainOnTLS = "c10 plain HTTP request sent to an HTTPS port"
+
+func (c *c10SniffConn) Read(p []byte) (int, error) {
+	if !c.sniffed {
+		c.sniffed = true
+		var b [1]byte
+		n, err := c.Conn.Read(b[:])
+		if n == 0 {
+			return 0, err
+		}
+		if b[0] != 0x16 { // not a TLS handshake record
+			c.Conn.SetDeadline(time.Now().Add(10 * time.Second))
+			br := bufio.NewReader(io.MultiReader(bytes.NewReader(b[:1]), c.Conn))
+			if req, err := http.ReadRequest(br); err == nil {
+				io.Copy(io.Discard, req.Body)
+			}
+			body := `{"message":"` + c10PlainOnTLS + `"}`
+			fmt.Fprintf(c.Conn, "HTTP/1.1 400 Bad Request\r\nContent-Type: %s\r\nContent-Length: %d\r\nConnection: close\r\n\r\n%s", c10JSON, len(body), body)
+			return 0, io.EOF
+		}
+		c.first = b[:1]
+	}
+	if len(c.first) > 0 {
+		n := copy(p, c.first)
+		c.first = c.first[n:]
+		return n, nil
+	}
+	return c.Conn.Read(p)
+}
 
 func (st *c10CaseState) respond(host int, scheme, hostHdr string, r *http.Request, bodyLen int) (rs c10Resp) {
 	st.nreq++
@@ -432,6 +513,12 @@ func (st *c10CaseState) respond(host int, scheme, hostHdr string, r *http.Reques
 		o.HostSym = "?" + hostHdr
 	}
 	o.Auth = append(o.Auth, r.Header.Values("Authorization")...)
+	if r.ProtoMajor != 1 {
+		o.Proto = r.Proto
+	}
+	o.Cookie = len(r.Header.Values("Cookie")) > 0
+	o.CliCert = r.TLS != nil && len(r.TLS.PeerCertificates) > 0
+	o.Extra = r.Header.Get("X-C10-Extra") != ""
 	// chain position: from the tag the previous redirect put into the URL, or (tag-less redirects) from the repeat table
 	o.Chain, o.Hop = -1, 0
 	if tag := r.URL.Query().Get("c10"); tag != "" {
@@ -460,10 +547,10 @@ func (st *c10CaseState) respond(host int, scheme, hostHdr string, r *http.Reques
 	}()
 	if st.nreq > st.cap {
 		st.capped = true
-		return c10Resp{status: 500, hdr: [][2]string{{"Content-Type", "text/plain"}}, body: "c10 request cap"}
+		return c10JSONErr(500, "c10 request cap")
 	}
 	if host < 0 {
-		return c10Resp{status: 502, body: "unknown host"}
+		return c10JSONErr(502, "Bad Gateway: c10 unknown host")
 	}
 	sc := st.sc
 	pol := sc.Pol[host]
